@@ -521,7 +521,15 @@ impl<I: Hash + Eq, A: Hash + Eq> Game<I, A> {
                     }
                     _ => {
                         // renormalize to make sure consistency
-                        let total: f64 = probs.iter().sum();
+                        let mut total: f64 = probs.iter().sum();
+                        if total.is_infinite() {
+                            // every weight is finite but their sum overflows, scale them down first
+                            let max = probs.iter().copied().fold(0.0, f64::max);
+                            for prob in &mut probs {
+                                *prob /= max;
+                            }
+                            total = probs.iter().sum();
+                        }
                         for prob in &mut probs {
                             *prob /= total;
                         }
